@@ -63,17 +63,203 @@ func mutatingUsesOf(f *ssa.Function, field string) []fsUse {
 	return out
 }
 
+
+// cacheRoles: the fields and helpers of fscache.Cache, discovered from the code
+// (types and how the exported methods use them), not from their names.
+type cacheRoles struct {
+	cacheT   *types.Named
+	histT    *types.Struct   // the journal struct (the struct-typed field of Cache that holds map fields)
+	histName string          // its field name in Cache
+	remote   string          // "fscache.Cache.<field>" of the filespace Commit writes to
+	buffer   string          // "fscache.Cache.<field>" of the filespace Commit copies from
+	journals []string        // names of the journal map fields
+	class    map[string]string // journal field -> operation class: Remove | RemoveAll | MkdirAll | write
+	recorder map[string][]*ssa.Function // journal field -> functions that write it
+	problems []string
+}
+
+func opClass(method string) string {
+	switch method {
+	case "Remove", "RemoveAll", "MkdirAll":
+		return method
+	case "WriteFile", "Writer", "Copy", "CopyDirectory", "CopyFile":
+		return "write"
+	}
+	return ""
+}
+
+func discoverCacheRoles(c *Ctx) *cacheRoles {
+	r := &cacheRoles{class: map[string]string{}, recorder: map[string][]*ssa.Function{}}
+	r.cacheT = c.P.Named(cachePkg, "Cache")
+	commit := c.P.Func(cachePkg, "Cache", "Commit")
+	fiface := c.P.Iface("filesystem", "Filespace")
+	if r.cacheT == nil || commit == nil || fiface == nil {
+		return nil
+	}
+	cst, ok := r.cacheT.Underlying().(*types.Struct)
+	if !ok {
+		return nil
+	}
+	tn := "fscache.Cache."
+	// journal struct
+	for i := 0; i < cst.NumFields(); i++ {
+		if st, ok := cst.Field(i).Type().Underlying().(*types.Struct); ok {
+			nmaps := 0
+			for j := 0; j < st.NumFields(); j++ {
+				if _, isMap := st.Field(j).Type().Underlying().(*types.Map); isMap {
+					nmaps++
+				}
+			}
+			if nmaps > 0 {
+				r.histT, r.histName = st, cst.Field(i).Name()
+				for j := 0; j < st.NumFields(); j++ {
+					if _, isMap := st.Field(j).Type().Underlying().(*types.Map); isMap {
+						r.journals = append(r.journals, st.Field(j).Name())
+					}
+				}
+			}
+		}
+	}
+	if r.histT == nil {
+		return nil
+	}
+	// remote / buffer from the copy step and the mutators of Commit
+	votes := map[string]int{}
+	for _, ci := range Calls(commit) {
+		if ci.Static != nil && qualName(ci.Static) == mq("filesystem/fshelper", "", "StreamCopy") {
+			for _, o := range Origins(ci.Arg(1), FlowOpts{}) {
+				if o.Kind == "field" && strings.HasPrefix(o.Name, tn) {
+					votes[o.Name] += 10
+				}
+			}
+			for _, o := range Origins(ci.Arg(0), FlowOpts{}) {
+				if o.Kind == "field" && strings.HasPrefix(o.Name, tn) {
+					r.buffer = o.Name
+				}
+			}
+		}
+		if ci.Method != nil && fsMutators[ci.Method.Name()] {
+			for _, o := range Origins(ci.Recv(), FlowOpts{}) {
+				if o.Kind == "field" && strings.HasPrefix(o.Name, tn) {
+					votes[o.Name]++
+				}
+			}
+		}
+	}
+	best := 0
+	for k, v := range votes {
+		if v > best {
+			best, r.remote = v, k
+		}
+	}
+	if r.buffer == "" {
+		// the filespace field the mutating methods write to
+		bv := map[string]int{}
+		for mn, f := range c.P.MethodsOf(r.cacheT, fiface) {
+			if opClass(mn) == "" {
+				continue
+			}
+			for _, ci := range Calls(f) {
+				if ci.Method != nil && fsMutators[ci.Method.Name()] {
+					for _, o := range Origins(ci.Recv(), FlowOpts{}) {
+						if o.Kind == "field" && strings.HasPrefix(o.Name, tn) && o.Name != r.remote {
+							bv[o.Name]++
+						}
+					}
+				}
+			}
+		}
+		b := 0
+		for k, v := range bv {
+			if v > b {
+				b, r.buffer = v, k
+			}
+		}
+	}
+	// recorders and classes
+	fns := c.P.PkgFuncs(cachePkg)
+	for _, f := range fns {
+		eachInstr(f, func(_ *ssa.BasicBlock, _ int, in ssa.Instruction) {
+			if mu, ok := in.(*ssa.MapUpdate); ok {
+				if n, base := fieldLoadName(mu.Map); base != nil && !freshBase(base) {
+					for _, j := range r.journals {
+						if j == n {
+							r.recorder[j] = append(r.recorder[j], f)
+						}
+					}
+				}
+			}
+		})
+	}
+	for mn, f := range c.P.MethodsOf(r.cacheT, fiface) {
+		cl := opClass(mn)
+		if cl == "" {
+			continue
+		}
+		for _, g := range reachableSamePkg(f, 2) {
+			// do not follow delegation into other interface methods of the cache
+			if g != f && g.Signature.Recv() != nil && opClass(g.Name()) != "" {
+				continue
+			}
+			for j, recs := range r.recorder {
+				for _, rec := range recs {
+					if rec != g {
+						continue
+					}
+					if old, has := r.class[j]; has && old != cl {
+						r.problems = append(r.problems, fmt.Sprintf("journal %s is written by operations of different kinds (%s and %s: %s)", j, old, cl, mn))
+					} else {
+						r.class[j] = cl
+					}
+				}
+			}
+		}
+	}
+	return r
+}
+
+// recordsInto: calls in f (kind "call") to a recorder of journal j.
+func (r *cacheRoles) isRecorderCall(in ssa.Instruction, j string) bool {
+	ci := callInfo(in, nil, 0)
+	if ci == nil || ci.Static == nil || ci.Kind != "call" {
+		if mu, ok := in.(*ssa.MapUpdate); ok {
+			if n, _ := fieldLoadName(mu.Map); n == j {
+				return true
+			}
+		}
+		return false
+	}
+	for _, rec := range r.recorder[j] {
+		if rec == ci.Static {
+			return true
+		}
+	}
+	return false
+}
+
+func (r *cacheRoles) journalOfClass(cl string) string {
+	for j, c := range r.class {
+		if c == cl {
+			return j
+		}
+	}
+	return ""
+}
+
 func rulesC06(c *Ctx) {
-	cacheT := c.P.Named(cachePkg, "Cache")
-	histT := c.P.Named(cachePkg, "cacheHistory")
+	roles := discoverCacheRoles(c)
 	commit := c.P.Func(cachePkg, "Cache", "Commit")
 	fns := c.P.PkgFuncs(cachePkg)
-	if cacheT == nil || histT == nil || commit == nil {
-		c.Bad("anchor", "fscache.Cache / cacheHistory / Commit", 0, "anchor not found; cannot certify")
+	if roles == nil || commit == nil || roles.remote == "" || roles.buffer == "" || roles.remote == roles.buffer {
+		c.Bad("anchor", "fscache.Cache: journal struct, remote and buffer filespace, Commit", 0, "cannot discover the cache's roles (journal struct with map fields, the filespace Commit copies to and the one it copies from); cannot certify")
 		return
 	}
-	const remote = "fscache.Cache.remoteFS"
-	const buffer = "fscache.Cache.bufferFS"
+	cacheT := roles.cacheT
+	remote, buffer := roles.remote, roles.buffer
+	c.Note("cache roles: remote=%s buffer=%s journals=%v classes=%v", remote, buffer, roles.journals, roles.class)
+	for _, p := range roles.problems {
+		c.Bad("R2", "journal classes", commit.Pos(), p+" — Commit cannot replay such a journal with one operation")
+	}
 
 	// ---- R1 remote only written by Commit -----------------------------------------------
 	inCommit, outside := 0, 0
@@ -95,48 +281,35 @@ func rulesC06(c *Ctx) {
 	c.Floor("R1", inCommit, 4)
 
 	// ---- R2 every journal replayed with its own operation ------------------------------------
-	hst := histT.Underlying().(*types.Struct)
-	want := map[string][]string{"remove": {"Remove"}, "removeall": {"RemoveAll"}, "mkdirall": {"MkdirAll"}, "write": {"StreamCopy(dest)", "WriteFile", "Writer"}}
+	hst := roles.histT
+	opsOf := map[string][]string{"Remove": {"Remove"}, "RemoveAll": {"RemoveAll"}, "MkdirAll": {"MkdirAll"}, "write": {"StreamCopy(dest)", "WriteFile", "Writer"}}
 	n2 := 0
-	for i := 0; i < hst.NumFields(); i++ {
-		fld := hst.Field(i)
-		if _, isMap := fld.Type().Underlying().(*types.Map); !isMap {
-			continue
-		}
-		// written anywhere?
-		written := false
-		for _, f := range fns {
-			eachInstr(f, func(_ *ssa.BasicBlock, _ int, in ssa.Instruction) {
-				if mu, ok := in.(*ssa.MapUpdate); ok {
-					if n, base := fieldLoadName(mu.Map); n == fld.Name() && base != nil && !freshBase(base) {
-						written = true
-					}
-				}
-			})
-		}
-		if !written {
-			continue
+	for _, jn := range roles.journals {
+		if len(roles.recorder[jn]) == 0 {
+			continue // never written
 		}
 		n2++
-		con := "journal " + fld.Name() + " replayed by Commit"
+		con := "journal of " + roles.class[jn] + " operations replayed by Commit"
+		if roles.class[jn] == "" {
+			con = "journal " + jn + " replayed by Commit"
+		}
 		var rng *ssa.Range
 		eachInstr(commit, func(_ *ssa.BasicBlock, _ int, in ssa.Instruction) {
 			if r, ok := in.(*ssa.Range); ok {
-				if n, _ := fieldLoadName(r.X); n == fld.Name() {
+				if n, _ := fieldLoadName(r.X); n == jn {
 					rng = r
 				}
 			}
 		})
 		if rng == nil {
-			c.Bad("R2", con, commit.Pos(), "Commit does not range over this journal — a whole class of buffered operations never reaches the remote")
+			c.Bad("R2", con, commit.Pos(), "Commit does not range over this journal ("+jn+") — a whole class of buffered operations never reaches the remote")
 			continue
 		}
-		ops, known := want[strings.ToLower(fld.Name())]
+		ops, known := opsOf[roles.class[jn]]
 		if !known {
-			c.Bad("R2", con, rng.Pos(), "a journal the checker has no replay rule for (new kind of buffered operation); cannot certify")
+			c.Bad("R2", con, rng.Pos(), "journal "+jn+" is not written by any of the mutating operations the checker knows a replay rule for; cannot certify")
 			continue
 		}
-		// the key of this range
 		var key ssa.Value
 		for _, r := range *rng.Referrers() {
 			if nx, ok := r.(*ssa.Next); ok {
@@ -156,7 +329,6 @@ func rulesC06(c *Ctx) {
 			if !match || u.ci.Instr == nil {
 				continue
 			}
-			// path argument is the ranged key
 			var patharg ssa.Value
 			if u.what == "StreamCopy(dest)" {
 				patharg = u.ci.Arg(2)
@@ -167,7 +339,7 @@ func rulesC06(c *Ctx) {
 				okOp = true
 			}
 		}
-		c.Check(okOp, "R2", con, rng.Pos(), "ranged over, and "+strings.Join(ops, "/")+" is applied to the remote with the ranged path", "the loop over this journal does not apply "+strings.Join(ops, "/")+" to the remote for the ranged path — these buffered operations are silently dropped (or replayed as a different operation)")
+		c.Check(okOp, "R2", con, rng.Pos(), "ranged over, and "+strings.Join(ops, "/")+" is applied to the remote with the ranged path", "the loop over journal "+jn+" does not apply "+strings.Join(ops, "/")+" to the remote for the ranged path — these buffered operations are silently dropped (or replayed as a different operation)")
 	}
 	c.Floor("R2", n2, 4)
 
@@ -210,7 +382,10 @@ func rulesC06(c *Ctx) {
 	c.Floor("R3", n3, 4)
 
 	// ---- R4 every buffered mutation is journaled ---------------------------------------------------
-	recorderFor := map[string]string{"MkdirAll": "changeMkdirAll", "Writer": "changeWrite", "WriteFile": "changeWrite", "Copy": "changeWrite", "CopyDirectory": "changeWrite", "CopyFile": "changeWrite", "Remove": "changeRemove", "RemoveAll": "changeRemoveAll"}
+	recorderFor := map[string]string{}
+	for _, mn := range []string{"MkdirAll", "Writer", "WriteFile", "Copy", "CopyDirectory", "CopyFile", "Remove", "RemoveAll"} {
+		recorderFor[mn] = roles.journalOfClass(opClass(mn))
+	}
 	fiface := c.P.Iface("filesystem", "Filespace")
 	methods := c.P.MethodsOf(cacheT, fiface)
 	n4 := 0
@@ -222,10 +397,11 @@ func rulesC06(c *Ctx) {
 		f := methods[mn]
 		n4++
 		con := "fscache.(Cache)." + mn + " journals what it buffers"
-		isRec := func(in ssa.Instruction) bool {
-			ci := callInfo(in, nil, 0)
-			return ci != nil && ci.Static != nil && ci.Static.Name() == rec && ci.Kind == "call"
+		if rec == "" {
+			c.Bad("R4", con, f.Pos(), "no journal is written by operations of this kind — after Commit the remote misses them")
+			continue
 		}
+		isRec := func(in ssa.Instruction) bool { return roles.isRecorderCall(in, rec) }
 		isBufOp := func(in ssa.Instruction) bool {
 			ci := callInfo(in, nil, 0)
 			if ci == nil {
@@ -281,7 +457,7 @@ func rulesC06(c *Ctx) {
 		// same path value
 		if bad == "" {
 			for _, ci := range Calls(f) {
-				if ci.Static != nil && ci.Static.Name() == rec {
+				if ci.Static != nil && roles.isRecorderCall(ci.Instr, rec) {
 					// the recorded path is the method's destination parameter (cleaned)
 					os := Origins(ci.Arg(0), FlowOpts{})
 					if !hasOrigin(os, func(o Origin) bool { return o.Kind == "param" }) {
@@ -290,7 +466,7 @@ func rulesC06(c *Ctx) {
 				}
 			}
 		}
-		c.Check(bad == "", "R4", con, f.Pos(), "every buffer mutation and every possibly-successful return passed "+rec, bad+" — after Commit the remote misses this operation")
+		c.Check(bad == "", "R4", con, f.Pos(), "every buffer mutation and every possibly-successful return passed the recorder of journal "+rec, bad+" — after Commit the remote misses this operation")
 	}
 	c.Floor("R4", n4, 8)
 
@@ -302,7 +478,7 @@ func rulesC06(c *Ctx) {
 		if _, isMap := fld.Type().Underlying().(*types.Map); !isMap {
 			continue
 		}
-		n5 += guardedAccessRule(c, le, "R5", fns, histT, fld.Name(), fld.Name()+"MU", nil)
+		n5 += guardedAccessRule(c, le, "R5", fns, roles.histNamed(c), fld.Name(), fld.Name()+"MU", nil)
 	}
 	c.Floor("R5", n5, 8)
 
@@ -349,4 +525,17 @@ func failingEdgeAlwaysReturns(f *ssa.Function, ev ssa.Value) bool {
 		}
 	})
 	return found && ok
+}
+
+// histNamed: the named type of the journal struct.
+func (r *cacheRoles) histNamed(c *Ctx) *types.Named {
+	cst := r.cacheT.Underlying().(*types.Struct)
+	for i := 0; i < cst.NumFields(); i++ {
+		if cst.Field(i).Name() == r.histName {
+			if n, ok := cst.Field(i).Type().(*types.Named); ok {
+				return n
+			}
+		}
+	}
+	return nil
 }
